@@ -276,6 +276,17 @@ type vMaps struct {
 	P vPort                  `config:"p"`
 }
 
+type vDeep struct {
+	X  interface{}            `config:"x"`
+	L  []interface{}          `config:"l"`
+	M  map[string]interface{} `config:"m"`
+	PP **vRange               `config:"pp"`
+	PS *string                `config:"ps" validate:"nonzero"`
+	PL *[]int                 `config:"pl" validate:"nonzero"`
+	PR *string                `config:"pr" validate:"required"`
+	Z  int                    `config:"z"`
+}
+
 type vOuter struct {
 	Label string  `config:"label"`
 	R     vRange  `config:"r"`
@@ -540,6 +551,104 @@ func hookedCases(g *Gen) {
 		g.Add(Case{Coq: fmt.Sprintf("CHooked %s (TStruct []) %s %s (GStructV [GP (CI (%d))])", coqStr("vAllValid"), old, obs, valid(x)),
 			Desc: map[string]interface{}{"kind": "hooked", "type": "vMaps (I map[string]interface{} holding *vW{Workers min=1}; R map[string]vRange by value, Validate on the pointer; P vPort with Validate on the pointer)", "prefilled": oldD, "config": descTree(cfgM), "observed": d, "after": fmt.Sprintf("%+v", x)},
 			Tags: []string{"hooked:vMaps"}, Nontrivial: true})
+	}
+	// (f) pre-filled values the configuration does not mention, reached through an interface{}
+	// (by pointer and by value), through two pointers, and empty values behind one pointer under
+	// nonzero / required
+	for i := 0; i < 16; i++ {
+		var x vDeep
+		dflt := "set"
+		x.PR = &dflt
+		bad := vRange{Min: 9, Max: 1, Name: "bad"}
+		good := vRange{Min: 1, Max: 9, Name: "good"}
+		pick := func() vRange {
+			if r.P(2, 3) {
+				return bad
+			}
+			return good
+		}
+		switch i % 8 {
+		case 0:
+			v := pick()
+			x.X = &v
+		case 1:
+			x.X = pick()
+		case 2:
+			v := pick()
+			x.L = []interface{}{&good, &v}
+		case 3:
+			x.M = map[string]interface{}{"a": good, "b": pick()}
+		case 4:
+			v := pick()
+			pv := &v
+			x.PP = &pv
+		case 5:
+			e := []string{"", "set"}[r.Intn(2)]
+			x.PS = &e
+		case 6:
+			e := [][]int{{}, {1}}[r.Intn(2)]
+			x.PL = &e
+		default:
+			e := []string{"", "set"}[r.Intn(2)]
+			x.PR = &e
+		}
+		valid := func(x vDeep) int {
+			ok := true
+			chk := func(e interface{}) {
+				switch v := e.(type) {
+				case *vRange:
+					if v != nil && v.Min > v.Max {
+						ok = false
+					}
+				case vRange:
+					if v.Min > v.Max {
+						ok = false
+					}
+				}
+			}
+			chk(x.X)
+			for _, e := range x.L {
+				chk(e)
+			}
+			for _, e := range x.M {
+				chk(e)
+			}
+			if x.PP != nil && *x.PP != nil {
+				chk(*x.PP)
+			}
+			if x.PS != nil && *x.PS == "" {
+				ok = false
+			}
+			if x.PL != nil && len(*x.PL) == 0 {
+				ok = false
+			}
+			if x.PR != nil && *x.PR == "" {
+				ok = false
+			}
+			if ok {
+				return 1
+			}
+			return 0
+		}
+		cfgM := map[string]interface{}{"z": int64(1)}
+		c, _ := ucfg.NewFrom(cfgM)
+		oldD := fmt.Sprintf("X=%v L=%v M=%v PP=%v PS=%v PL=%v PR=%v", x.X, x.L, x.M, x.PP != nil, x.PS != nil, x.PL != nil, x.PR != nil)
+		var err error
+		p, pm := guard(func() { err = c.Unpack(&x) })
+		obs, d := "UPanic", "PANIC "+pm
+		w := valid(x)
+		if !p && err != nil {
+			name, path := "EOther", ""
+			if e, ok := err.(ucfg.Error); ok {
+				name, path = reasonName(e), e.Path()
+			}
+			obs, d = fmt.Sprintf("(UErr %s %s)", name, coqStr(path)), descErr(err)
+		} else if !p {
+			obs, d = fmt.Sprintf("(UOk (GStructV [GP (CI (%d))]))", w), fmt.Sprintf("accepted, every value valid: %v", w == 1)
+		}
+		g.Add(Case{Coq: fmt.Sprintf("CHooked %s (TStruct []) (GStructV [GP (CI (%d))]) %s (GStructV [GP (CI (%d))])", coqStr("vAllValid"), w, obs, w),
+			Desc: map[string]interface{}{"kind": "hooked", "type": "vDeep (X interface{}, L []interface{}, M map[string]interface{} holding vRange / *vRange; PP **vRange; PS *string nonzero; PL *[]int nonzero; PR *string required)", "prefilled": oldD, "config": descTree(cfgM), "observed": d},
+			Tags: []string{"hooked:vDeep", fmt.Sprintf("vDeep:%d", i%8)}, Nontrivial: true})
 	}
 	// (c) defaults of primitive types meet the validators
 	for i := 0; i < 12; i++ {
@@ -807,6 +916,48 @@ func apiErrCases(g *Gen) {
 				}
 				p, _ = guard(func() { cerr = c.Unpack(&ar, opts...) })
 				add("Unpack of a reference into [2]int", at("u"), cerr, p)
+			}
+		}
+		// the same readers over a setting that refers to itself: a cyclic reference is a reference
+		// that cannot be resolved, the error names the setting that holds it
+		{
+			c, err := ucfg.NewFrom(wrap("u", "${"+at("u")+"}"), lopts...)
+			if err != nil {
+				continue
+			}
+			parent := c
+			if len(segs) > 0 {
+				parent, err = c.Child(strings.Join(segs, "."), -1, opts...)
+				if err != nil || parent == nil {
+					continue
+				}
+			}
+			var cerr error
+			p, _ := guard(func() { _, cerr = parent.CountField("u", opts...) })
+			add("CountField of a cyclic reference", at("u"), cerr, p)
+			var m map[string]interface{}
+			p, _ = guard(func() { cerr = c.Unpack(&m, opts...) })
+			add("Unpack of a cyclic reference into map[string]interface{}", at("u"), cerr, p)
+			var st struct {
+				Out interface{} `config:"out"`
+				Lst interface{} `config:"lst"`
+				N   interface{} `config:"n"`
+				Es  interface{} `config:"es"`
+				U   interface{} `config:"u"`
+			}
+			p, _ = guard(func() { cerr = c.Unpack(&st, opts...) })
+			add("Unpack of a cyclic reference into interface{} fields", at("u"), cerr, p)
+			if len(segs) == 0 {
+				var sl struct {
+					U []interface{} `config:"u"`
+				}
+				p, _ = guard(func() { cerr = c.Unpack(&sl, opts...) })
+				add("Unpack of a cyclic reference into []interface{}", at("u"), cerr, p)
+				var in struct {
+					U int `config:"u"`
+				}
+				p, _ = guard(func() { cerr = c.Unpack(&in, opts...) })
+				add("Unpack of a cyclic reference into int", at("u"), cerr, p)
 			}
 		}
 		// a getter whose path runs into a value that holds no settings
